@@ -189,10 +189,24 @@ Definition check_entry (ds : list drv) (envs : list env) (pool G0 : list tx) (t0
       (m, sp, if sp then 0%N else kf_classify17 e ds (p_issued s) G0 L chk sgn)
   end.
 
-Fixpoint check_entries (f : entry -> verdict) (l : list entry) : verdict :=
-  match l with
-  | [] => ok_verdict
-  | en :: r => let v := f en in if verdict_ok v then check_entries f r else v
+(** The entries of a case are independent (each starts from the created group).
+    Reported: the first entry that violates the spec outside the recorded
+    findings, else the first that matches a recorded finding, else the first
+    model disagreement. *)
+Definition pick (p : verdict -> bool) (vs : list verdict) : option verdict := find p vs.
+Definition check_entries (f : entry -> verdict) (l : list entry) : verdict :=
+  let vs := map f l in
+  match pick (fun v => match v with (_, s, k) => negb s && N.eqb k 0 end) vs with
+  | Some v => v
+  | None =>
+      match pick (fun v => match v with (_, s, _) => negb s end) vs with
+      | Some v => v
+      | None =>
+          match pick (fun v => negb (verdict_ok v)) vs with
+          | Some v => v
+          | None => ok_verdict
+          end
+      end
   end.
 
 Inductive case :=
